@@ -191,5 +191,8 @@ def run(tier, seed):
     build.ir_many([dict(config=c, flavour="O0") for c in cfgs])
     tasks = []
     for cfg in cfgs: tasks += harnesses(rep, cfg, build.ir(cfg, "O0"))
+    # the AVX2 copies of the point formulas (simd build): checks/c03v.py
+    from checks import c03v
+    tasks += c03v.harnesses(rep, build.ir("simd", "O0"))
     run_tasks(tasks, rep)
     return rep
